@@ -77,6 +77,11 @@ def snapshot(obj, seen=None, depth=0):
         return ("field", obj.name, id(obj))
     if dataclasses.is_dataclass(obj):
         return ("dc", type(obj).__module__, type(obj).__qualname__, tuple(snapshot(getattr(obj, f.name), seen, depth + 1) for f in dataclasses.fields(obj)))
+    import io as _io
+
+    if isinstance(obj, _io.BytesIO):
+        # a real scratch buffer held by a closure: its content and position are state
+        return ("bytesio", obj.closed or (obj.getvalue(), obj.tell()))
     if isinstance(obj, types.MappingProxyType):
         return ("mappingproxy", tuple((snapshot(k, seen, depth + 1), snapshot(v, seen, depth + 1)) for k, v in obj.items()))
     d = getattr(obj, "__dict__", None)
@@ -268,8 +273,9 @@ def finite_checks(cls, opts, others):
     w2 = entity_writer.__wrapped__(cls) if hasattr(entity_writer, "__wrapped__") else None
     if r2 is not None:
         def norm(s):
-            # function identity differs between two constructions; compare modulo ids of the outermost closure
-            return repr(_strip_ids(s))
+            # identities differ between two constructions (functions, and opaque immutable helpers such as a
+            # struct.Struct a closure may legitimately hold): compare the structure only
+            return repr(_portable(s))
         out["construction_deterministic"] = norm(snapshot(r2)) == norm(snapshot(r)) and norm(snapshot(w2)) == norm(snapshot(w))
     out["cached_object_is_reused"] = entity_reader(cls) is r and entity_writer(cls) is w
     return out
@@ -360,6 +366,8 @@ def task_class(args):
     cls = shapes.class_by_id(cid)
     stats = Stats()
     deadline = t0 + opts["class_seconds"]
+    reps = shapes.signature_representatives(shapes.all_entity_classes())
+    fin = finite_checks(cls, opts, [])  # before the closures are used: both constructions are fresh
     probe = History(cls, {}, opts)
     nshapes = 0
     for shape, depth in shapes.shape_schedule(probe.build_both, opts["max_shapes"], opts["max_dev"], regions=opts["regions"], max_array=opts["max_array"]):
@@ -368,11 +376,6 @@ def task_class(args):
         for kind in CALL1:
             explore(History(cls, shape, opts, kind), max_paths=opts["per_shape_paths"], stats=stats, deadline=deadline, range_bound=opts["max_array"] + 1)
         nshapes += 1
-    reps = shapes.signature_representatives(shapes.all_entity_classes())
-    import random
-
-    others = random.Random(hash(cid) & 0xFFFF).sample(reps, min(opts["others"], len(reps)))
-    fin = finite_checks(cls, opts, others)
     return {"class": cid, "stats": stats.to_json(), "shapes": nshapes, "finite": fin, "wall": round(time.time() - t0, 2)}
 
 
